@@ -14,7 +14,8 @@ func init() { families["C10"] = runC10 }
 type c10Call struct {
 	Units [][]int `json:"units"`
 	Scs   []int   `json:"scs"`
-	Mtu   int     `json:"mtu"` // 0: the case's MTU
+	Mtu   int     `json:"mtu"`       // 0: the case's MTU
+	StapA *bool   `json:"stapa_now"` // set: the application changes DisableStapA before this call
 }
 
 type c10Case struct {
@@ -94,12 +95,15 @@ func runC10(raw json.RawMessage, w *Writer) {
 		if call.Mtu > 0 {
 			mtu = call.Mtu
 		}
+		if call.StapA != nil {
+			p.DisableStapA = !*call.StapA
+		}
 		r, _ := guard(func() { frags = p.Payload(uint16(mtu), stream[bounds[k]:bounds[k+1]]) })
 		intact := bytes.Equal(stream, pristine) // the call wrote neither into its window nor into what lies behind it
 		deps := []Ev{}
 		for _, f := range frags {
 			deps = append(deps, rx.feed(f))
 		}
-		w.Emit(Ev{"ev": "payload", "k": k, "units": call.Units, "scs": call.Scs, "input": ints(input), "mtu": mtu, "stream_intact": intact, "res": r, "frags": intss(frags), "deps": deps})
+		w.Emit(Ev{"ev": "payload", "k": k, "units": call.Units, "scs": call.Scs, "input": ints(input), "mtu": mtu, "stapa": !p.DisableStapA, "stream_intact": intact, "res": r, "frags": intss(frags), "deps": deps})
 	}
 }
